@@ -41,7 +41,9 @@ func stdTest() rel.Attr {
 				"not unequal",
 			),
 			createTestCompareFuncAttr("size", func(_ context.Context, e, a rel.Value) bool {
-				return int(e.(rel.Number).Float64()) == a.(rel.Set).Count()
+				n, isNumber := e.(rel.Number)
+				s, isSet := a.(rel.Set)
+				return isNumber && isSet && int(n.Float64()) == s.Count()
 			}, "unexpected size"),
 			createTestCheckFuncAttr(sFalse, func(_ context.Context, v rel.Value) bool { return !v.IsTrue() }),
 			createTestCheckFuncAttr(sTrue, func(_ context.Context, v rel.Value) bool { return v.IsTrue() }),
